@@ -143,6 +143,12 @@ class BlastHooks(QHooks):
         if path == self.critflag:
             E.set('$crit', val if val is not TOP else fs(-1))
 
+    def prim_perm_partialline(self, E, x, args):
+        return 'noreturn'
+
+    def prim_temp_read(self, E, x, args):
+        return 'noreturn'
+
     def on_exit(self, E, x):
         name = x.callee
         if name == 'perm_partialline':
